@@ -533,6 +533,9 @@ var c03XShapes = []xshape{
 	{cs: []xclause{{qclause: qclause{s: bS, p: cA, o: cA}, oBound: true, olo: 1, ohi: 2, lo: -1, hi: -1}}, okinds: []int{0, 3, 4}},
 	{cs: []xclause{{qclause: qclause{s: bS, p: cA, o: cA}, oBound: true, olo: -1, ohi: -1, lo: -1, hi: -1}}, okinds: []int{3, 4}},
 	{cs: []xclause{{qclause: qclause{s: bS, p: cA, o: cA}, oBound: true, olo: 3, ohi: -1, lo: -1, hi: -1}}, okinds: []int{3, 4}},
+	// a predicate window in the first clause does not narrow the lookups of the second
+	{cs: []xclause{{qclause: qclause{s: bS, p: cA, o: bO}, bound: true, lo: 0, hi: 2}, {qclause: qclause{s: bS, p: pos{cb: 'b'}, o: bZ, at: "t"}, lo: -1, hi: -1}}, okinds: []int{0}, temporal: true},
+	{cs: []xclause{{qclause: qclause{s: bS, p: cA, o: bO}, bound: true, lo: 2, hi: 4}, {qclause: qclause{s: bZ, p: bP, o: bO}, lo: -1, hi: -1}}, okinds: []int{0}, temporal: true},
 	// an AT alias on the object joined with the anchor binding of another clause, both orders
 	{cs: []xclause{{qclause: qclause{s: bS, p: bP, o: bO}, oAt: "t", lo: -1, hi: -1}, {qclause: qclause{s: bZ, p: pos{cb: 'b'}, o: pos{bind: "w"}, at: "t"}, lo: -1, hi: -1}}, okinds: []int{0, 4}, temporal: true},
 	{cs: []xclause{{qclause: qclause{s: bZ, p: pos{cb: 'b'}, o: pos{bind: "w"}, at: "t"}, lo: -1, hi: -1}, {qclause: qclause{s: bS, p: cA, o: bO}, oAt: "t", lo: -1, hi: -1}}, okinds: []int{0, 4}, temporal: true},
